@@ -234,6 +234,63 @@ pub fn c15(ctx: &Ctx) -> (CheckMeta, Outcome) {
             }
         }
     }
+    // best_code over the whole field space: for EVERY tracked field, statistics in which that field
+    // is the strict minimum (built through the public fields) must report the code the field denotes
+    if crate::pool::is_primary() {
+        let tr = tracked();
+        for (i, (name, code)) in tr.iter().enumerate() {
+            for (hi, lo) in [(1000u64, 999u64), (u64::MAX, 0), (50, 7)] {
+                let mut s = Stats::default();
+                s.total = 3;
+                let set = |s: &mut Stats, j: usize, val: u64| {
+                    let mut k = j;
+                    if k < 5 {
+                        match k {
+                            0 => s.unary = val,
+                            1 => s.gamma = val,
+                            2 => s.delta = val,
+                            3 => s.omega = val,
+                            _ => s.vbyte = val,
+                        }
+                        return;
+                    }
+                    k -= 5;
+                    if k < 10 {
+                        s.zeta[k] = val;
+                        return;
+                    }
+                    k -= 10;
+                    if k < 20 {
+                        s.golomb[k] = val;
+                        return;
+                    }
+                    k -= 20;
+                    if k < 10 {
+                        s.exp_golomb[k] = val;
+                        return;
+                    }
+                    k -= 10;
+                    if k < 10 {
+                        s.rice[k] = val;
+                        return;
+                    }
+                    k -= 10;
+                    s.pi[k] = val;
+                };
+                for j in 0..tr.len() {
+                    set(&mut s, j, hi);
+                }
+                set(&mut s, i, lo);
+                pre.cov.evaluations += 1;
+                pre.cov.nontrivial += 1;
+                let (bc, bcost) = s.best_code();
+                let got = code_of_codes(&bc);
+                if bcost != lo || got != Some(*code) {
+                    bad(&mut pre, "stats", "best_code", "value", format!("statistics whose strict minimum is field {} (= {:?}, {} bits; all others {}): best_code() = ({:?}, {})", name, code, lo, hi, bc, bcost), &[]);
+                }
+            }
+        }
+    }
     let cost = |c: Code, v: u64| ref_len(c, v) as u64;
     // all multisets of size <= 4 over the alphabet
     let mut multisets: Vec<Vec<u64>> = vec![vec![]];
@@ -324,7 +381,7 @@ pub fn c15(ctx: &Ctx) -> (CheckMeta, Outcome) {
     let meta = CheckMeta {
         property: "C15".into(),
         level: "model_checking".into(),
-        rule: "concurrent half: loom (the wrapper's Mutex is loom's under --cfg dsi_bitstream_verif) explores every interleaving, within the preemption bound stated per model, of 2-3 threads performing 1-3 reads/writes through ONE shared CodesStatsWrapper; after join the statistics must equal the sequential result (states = executions explored). Sequential half: ALL 1001 multisets of size <= 4 over the 10-value alphabet {0,1,63,64,1023,1024,65535,65537,2^32,2^40+1}: every public total = sum of reference codeword lengths (cross-checked against the real writer's actual sizes where the codeword is <= 4096 bits) under the code/parameter the field denotes; total count; best_code() = argmin with that cost and re-encoding with the returned code costs exactly that; update_many with multiplicities; every split into <= 3 parts merged by add, +=, +, sum and a reordered +; statistics gathered by CodesStatsWrapper on writes and on reads (dynamic and static dispatch) for three wrapped codes".into(),
+        rule: "concurrent half: loom (the wrapper's Mutex is loom's under --cfg dsi_bitstream_verif) explores every interleaving, within the preemption bound stated per model, of 2-3 threads performing 1-3 reads/writes through ONE shared CodesStatsWrapper; after join the statistics must equal the sequential result (states = executions explored). Sequential half: ALL 1001 multisets of size <= 4 over the 10-value alphabet {0,1,63,64,1023,1024,65535,65537,2^32,2^40+1}: every public total = sum of reference codeword lengths (cross-checked against the real writer's actual sizes where the codeword is <= 4096 bits) under the code/parameter the field denotes; total count; best_code() = argmin with that cost and re-encoding with the returned code costs exactly that; for EVERY one of the 55 tracked fields, statistics built through the public fields in which that field is the strict minimum must report the code that field denotes; update_many with multiplicities; every split into <= 3 parts merged by add, +=, +, sum and a reordered +; statistics gathered by CodesStatsWrapper on writes and on reads (dynamic and static dispatch) for three wrapped codes".into(),
         assumptions: vec!["loom models sequentially consistent executions plus its C11 memory model for the Mutex; preemption bound 3 (unbounded for the smallest models)".into()],
     };
     (meta, out)
